@@ -424,7 +424,7 @@ fn publish(h: &Atomic, derive: &mut dyn FnMut(&Mem) -> Mem, unwinding: bool) {
     }
 }
 
-fn sequential(ctx: &Ctx, depth: usize) {
+fn sequential(ctx: &Ctx, depth: usize, unmerged: usize) {
     // state key: (current map, multiset of held snapshot maps, owned maps, number of handles);
     // a map is a list of (start, region instance): the same guest address can be plugged again
     // with a new region while a snapshot still holds the earlier one. Instances are renamed to
@@ -680,7 +680,11 @@ fn sequential(ctx: &Ctx, depth: usize) {
         let mut ol: Vec<Vec<Inst>> = owned.iter().map(|s| canon(&s.1)).collect();
         ol.sort();
         let key: Key = (canon(&current), sl, ol, handles.len() | if poisoned { 1 << 8 } else { 0 } | ((updates as usize % 3) << 9));
-        if !seen.insert(key) || hist.len() >= depth {
+        // histories of fewer than `unmerged` operations are all expanded, whether or not their state
+        // was seen before: what an object keeps beside the state named by the key (a handle that
+        // was cloned before or after the lock was poisoned, ...) cannot hide behind the key
+        let fresh = seen.insert(key);
+        if (!fresh && hist.len() >= unmerged) || hist.len() >= depth {
             continue;
         }
         let mut ops = vec![SOp::CloneHandle, SOp::DropHandle, SOp::Snapshot, SOp::PanicWhileLocked];
@@ -710,6 +714,7 @@ fn sequential(ctx: &Ctx, depth: usize) {
     ctx.add_traces(transitions);
     ctx.extra("sequential_states", json!(seen.len()));
     ctx.extra("sequential_depth", json!(depth));
+    ctx.extra("sequential_histories_expanded_without_merging_up_to_length", json!(unmerged));
 }
 
 fn trivial_address_spaces(ctx: &Ctx) {
@@ -773,7 +778,7 @@ pub fn run(tier: Tier, replay: Option<String>) -> i32 {
     for cfg in &configs {
         run_config(&ctx, cfg);
     }
-    sequential(&ctx, if thorough { 7 } else { 5 });
+    sequential(&ctx, if thorough { 7 } else { 5 }, if thorough { 4 } else { 3 });
     trivial_address_spaces(&ctx);
     ctx.extra("configs", json!(*CONFIG_INFO.lock().unwrap()));
     ctx.finish()
